@@ -51,8 +51,8 @@ func (c *Criteria) Spec_Validate() {
 }
 
 func (c *Criteria) Spec_NotUsedName(name string) string {
-	count := c.countWithPrefix(name)
-	return firstFreeName(name, count)
+	count := c.Spec_countWithPrefix(name)
+	return Spec_firstFreeName(name, count)
 }
 
 func Spec_firstFreeName(name string, count int) string {
@@ -78,7 +78,7 @@ func (c *Criteria) Spec_SortByWeights(weights Weights) *WeightedCriteria {
 	for i, criterion := range *c {
 		result[i] = WeightedCriterion{
 			Criterion: criterion,
-			Weight:    c.Weight(weights, i),
+			Weight:    c.Spec_Weight(weights, i),
 		}
 	}
 	sort.SliceStable(result, func(i, j int) bool {
@@ -88,12 +88,12 @@ func (c *Criteria) Spec_SortByWeights(weights Weights) *WeightedCriteria {
 }
 
 func (c *Criteria) Spec_Weight(weights Weights, criterionIndex int) Weight {
-	return c.FindWeight(&weights, &(*c)[criterionIndex])
+	return c.Spec_FindWeight(&weights, &(*c)[criterionIndex])
 }
 
 func (c *Criteria) Spec_FindWeight(weights *Weights, criterion *Criterion) Weight {
 	if v, ok := (*weights)[criterion.Id]; !ok {
-		criteria := weights.AsKeyValue()
+		criteria := weights.Spec_AsKeyValue()
 		panic(fmt.Errorf("weight for criterion '%s' not found in criteria %v", criterion.Id, criteria))
 	} else {
 		return v
@@ -113,7 +113,7 @@ func (c *Criterion) Spec_Multiplier() int8 {
 }
 
 func (c *Criterion) Spec_IsGain() bool {
-	return c.Multiplier() == 1
+	return c.Spec_Multiplier() == 1
 }
 
 func (c *Criteria) Spec_Names() *[]string {
@@ -144,7 +144,7 @@ func (w *WeightedCriteria) Spec_Criteria() *Criteria {
 func (c *Criteria) Spec_ZipWithWeights(weights *Weights) *WeightedCriteria {
 	weightedCriteria := make(WeightedCriteria, len(*c))
 	for i, crit := range *c {
-		value := c.FindWeight(weights, &crit)
+		value := c.Spec_FindWeight(weights, &crit)
 		weightedCriteria[i] = WeightedCriterion{
 			Criterion: crit,
 			Weight:    value,
